@@ -505,6 +505,7 @@ impl<T: Elem + SatisfyTraits<Tr>, M: MX, Tr: TrX + ?Sized> World<T, M, Tr> {
             Edge::Cap(api, call, n) => self.do_cap(api, call, ix(n), out),
             Edge::CloneVec { then } => self.do_clone(then, out),
             Edge::Huge { op } => self.do_huge(op, out),
+            Edge::DropVec => self.do_drop_vec(out),
             Edge::Relocate { slot, then } => self.do_relocate(slot, then, out),
             Edge::CloneFrom { dst, then } => self.do_clone_from(dst, then, out),
             Edge::CloneEmpty { then } => self.do_clone_empty(then, out),
@@ -707,7 +708,7 @@ impl<T: Elem + SatisfyTraits<Tr>, M: MX, Tr: TrX + ?Sized> World<T, M, Tr> {
             ts.scan();
             for e in ts.lifecycle_errors(T::SIZE, T::ALIGN) { out.fails.push(Fail { class: Class::Mem, kind: "mem-lifecycle", detail: e }); }
             for e in ts.errs.drain(..) { out.fails.push(Fail { class: Class::Mem, kind: if e.contains("stale") { "stale-write" } else { "oob-write" }, detail: e }); }
-            if !out.faulted && ts.live_blocks() != 0 { out.fails.push(Fail { class: Class::Mem, kind: "storage-leak", detail: format!("{} storage block(s) never released", ts.live_blocks()) }); }
+            if (!out.faulted || !out.leak_ok) && ts.live_blocks() != 0 { out.fails.push(Fail { class: Class::Mem, kind: "storage-leak", detail: format!("{} storage block(s) never released", ts.live_blocks()) }); }
         });
         galloc::flush();
         galloc::with_as(|st| {
@@ -722,7 +723,7 @@ impl<T: Elem + SatisfyTraits<Tr>, M: MX, Tr: TrX + ?Sized> World<T, M, Tr> {
                 };
                 out.fails.push(Fail { class, kind, detail: format!("{e:?}") });
             }
-            if !out.faulted && st.live_blocks() != 0 { out.fails.push(Fail { class: Class::Alloc, kind: "heap-leak", detail: format!("{} heap block(s) still allocated after all vectors were dropped", st.live_blocks()) }); }
+            if (!out.faulted || !out.leak_ok) && st.live_blocks() != 0 { out.fails.push(Fail { class: Class::Alloc, kind: "heap-leak", detail: format!("{} heap block(s) still allocated after all vectors were dropped", st.live_blocks()) }); }
         });
     }
 }
